@@ -12,6 +12,15 @@ func driverCmd(args []string) int {
 	if len(args) < 1 {
 		return 2
 	}
+	if len(args) > 1 && args[1] == "tool" {
+		p, err := grog.Tool(args[0])
+		if err != nil {
+			fmt.Fprintln(os.Stderr, err)
+			return 2
+		}
+		fmt.Println(p)
+		return 0
+	}
 	race := len(args) > 1 && args[1] == "race"
 	p, err := grog.Driver(args[0], race)
 	if err != nil {
